@@ -88,7 +88,11 @@ def cases(tier):
                 ["simple", "ünïcödé ✓ \U0001F600", "<b>&amp;</b>", "x" * 300, " lead", "a\nb"])))
             det = draw(st.one_of(st.none(), st.none(), details()))
             raised = {"kind": "fault", "cls": cls, "code": code, "msg": msg, "detail": det}
-        return {"prot": prot, "transport": transport, "raised": raised,
+        # earlier calls served by the SAME application / protocol instances before the judged
+        # one: a plain Fault of the other category, a crash, a dedicated error
+        prelude = draw(st.lists(st.sampled_from(["client", "server", "crash", "notfound"]),
+                                min_size=0, max_size=2)) if draw(st.integers(0, 2)) == 0 else []
+        return {"prot": prot, "transport": transport, "raised": raised, "prelude": prelude,
                 # the method is a generator (declared Iterable) raising before its first yield
                 # (through the real WSGI transport only: it is the transport that drives a
                 # generator up to its first yield before committing to a response)
@@ -297,12 +301,30 @@ def run_case(case, rec):
         rec.case(case, failures=fails)
         return fails
 
+    from spyne.model.fault import Fault as _F
+    from spyne import error as _E
+    pre = []
+    for kind in case.get("prelude") or []:
+        if kind == "client":
+            pre.append(lambda: _F("Client.Earlier", "earlier client fault"))
+        elif kind == "server":
+            pre.append(lambda: _F("Server.Earlier", "earlier server fault"))
+        elif kind == "notfound":
+            pre.append(lambda: _E.ResourceNotFoundError("earlier"))
+        else:
+            pre.append(lambda: ZeroDivisionError("earlier crash"))
+    queue = list(pre)
+
     def m0(ctx, s):
+        if queue:
+            raise queue.pop(0)()
         calls.append(s)
         raiser(ctx, (s,))
         return RET_TOKEN
 
     def g0(ctx, s):
+        if queue:
+            raise queue.pop(0)()
         calls.append(s)
         raiser(ctx, (s,))
         yield RET_TOKEN
@@ -342,6 +364,12 @@ def run_case(case, rec):
                   "yaml": "text/yaml", "msgpack": "application/x-msgpack",
                   "msgpackrpc": "application/x-msgpack"}.get(prot, "text/xml; charset=utf-8")
             env_ = drive.environ("POST", "/", "", body, content_type=ct)
+        for _ in pre:
+            if prot == "http":
+                drive.wsgi_call(w, drive.environ("GET", "/m0", "s=x", content_type=None,
+                                                 content_length=None))
+            else:
+                drive.wsgi_call(w, drive.environ("POST", "/", "", body, content_type=ct))
         res = drive.wsgi_call(w, env_)
         if res.escaped is not None:
             et, where = F.exc_origin(res.escaped)
@@ -356,6 +384,8 @@ def run_case(case, rec):
         status = (res.status or "")[:3]
         headers = res.headers or []
     else:
+        for _ in pre:
+            drive.server_call(app, body)
         out = drive.server_call(app, body)
         if out.escaped is not None:
             et, where = F.exc_origin(out.escaped[0])
